@@ -11,6 +11,7 @@ static unsigned long long transitions = 0;
 static fb_t A, B, C, SA;
 static const int tiny = (WSIZE != 64);
 static int alt_poly = 0;
+static const char *srt_kf = NULL;
 
 static gf2 gf_from_mpz(const mpz_t z) { gf2 r = gf_zero(); size_t c = 0; if (mpz_sgn(z)) mpz_export(r.w, &c, -1, 8, 0, 0, z); return r; }
 static void gf_to_mpz(mpz_t z, gf2 a) { mpz_import(z, GW, -1, 8, 0, 0, a.w); }
@@ -52,6 +53,8 @@ static void harness_setup(void) {
 	const char *alt = getenv("VF_FB_POLY"); /* "t:a" trinomial, "p:a,b,c" pentanomial, "sqrt" the library's second 283-bit set */
 	if (alt && !*alt) alt = NULL;
 	alt_poly = alt != NULL;
+	/* finding L48: with 8-bit digits the table-driven square root is wrong for a polynomial with an even middle exponent (generic fb_sqrt_low path) */
+	if (alt && tiny) { int e[3] = {1, 1, 1}; if (alt[0] == 't') e[0] = atoi(alt + 2); else if (alt[0] == 'p') sscanf(alt + 2, "%d,%d,%d", &e[0], &e[1], &e[2]); if (!(e[0] & 1) || !(e[1] & 1) || !(e[2] & 1)) srt_kf = "L48-fb-srt-quick-even-exponent-8-bit-digits"; }
 	if (tiny) {
 		int t[3] = {3, 0, 0}, nt = 1;
 		if (alt && alt[0] == 't') { nt = 1; t[0] = atoi(alt + 2); } else if (alt && alt[0] == 'p') { nt = 3; if (sscanf(alt + 2, "%d,%d,%d", &t[0], &t[1], &t[2]) != 3) exit(2); }
@@ -150,7 +153,7 @@ static void do_fbun(vf_case *c) {
 		VF_TRY(th, UN[i].f(pc, A));
 		if (UN[i].kind == 2 && gf_is_zero(a)) { transitions++; if (!th) vf_fail(NULL, "%s: inversion of zero was not reported as an error", UN[i].n); continue; }
 		if (th) { vf_fail(NULL, "%s raised %d", UN[i].n, th); continue; }
-		if (UN[i].kind == 0) expect_fb(UN[i].n, pc, sq, NULL); else if (UN[i].kind == 1) expect_fb(UN[i].n, pc, rt, NULL); else if (UN[i].kind == 2) expect_fb(UN[i].n, pc, inv, NULL);
+		if (UN[i].kind == 0) expect_fb(UN[i].n, pc, sq, NULL); else if (UN[i].kind == 1) expect_fb(UN[i].n, pc, rt, UN[i].f == fb_srt_quick ? srt_kf : NULL); else if (UN[i].kind == 2) expect_fb(UN[i].n, pc, inv, NULL);
 		else if (tr == 0) { /* the solution z of z^2 + z = a is defined up to +1 */ transitions++; gf2 z = gf_from_fb(pc); if (!gf_eq(gf_add(gf_sqr(z), z), a)) vf_fail(NULL, "%s: result does not solve z^2 + z = a (trace 0)", UN[i].n); else if (!fb_in_range(pc)) vf_fail(NULL, "%s: result not reduced", UN[i].n); }
 		if (!al && memcmp(A, SA, sizeof(fb_st))) vf_fail(NULL, "%s: input modified", UN[i].n);
 	}
